@@ -3,7 +3,7 @@
 # Confirms every seeded change of a property in its scratch worktree: clean tree builds, 288 tests pass and
 # the demonstration passes; with the change applied the tree builds, 288 tests pass and the demonstration fails.
 PROP="$1"
-WT=/tmp/wt/$PROP
+WT=${WTROOT:-/tmp/wt}/$PROP
 HEAD=$(git -C /repo rev-parse HEAD)
 cd "$WT" || exit 2
 git checkout -q -- . ; git checkout -q --detach "$HEAD" || exit 2
@@ -11,9 +11,10 @@ build() { cmake -G Ninja -S . -B _b -DCMAKE_BUILD_TYPE=Release >/dev/null 2>&1; 
 tests() { _b/bin/bloch_tests 2>&1 | tail -1; }
 demo() {  # $1 = seed dir ; prints exit code
   local d="$1" s=""
-  for c in run.sh demo.sh run_demo.sh; do [ -f "$d/$c" ] && s="$c" && break; done
+  for c in run.sh demo.sh run_demo.sh check_all.sh; do [ -f "$d/$c" ] && s="$c" && break; done
+  if [ -z "$s" ] && [ -f "$d/check.sh" ]; then ( cd "$d" && timeout 600 bash ./check.sh "$WT/_b/bin/bloch" >${WTROOT:-/tmp/wt}/confirm_${PROP}_$(basename $d).log 2>&1 ); echo $?; return; fi
   if [ -z "$s" ]; then echo "nodemo"; return; fi
-  ( cd "$d" && timeout 1500 bash "./$s" >/tmp/wt/confirm_${PROP}_$(basename $d).log 2>&1 ); echo $?
+  ( cd "$d" && timeout 1500 bash "./$s" >${WTROOT:-/tmp/wt}/confirm_${PROP}_$(basename $d).log 2>&1 ); echo $?
 }
 build
 echo "$PROP clean: tests='$(tests)'"
